@@ -34,6 +34,7 @@ type Out struct {
 	ops, gof *bufio.Writer
 	n        int
 	stats    map[string]int
+	cur      *os.File // the operation being executed, for the post-mortem when the engine kills the process
 }
 
 func NewOut(opsPath, goPath string) *Out {
@@ -45,7 +46,8 @@ func NewOut(opsPath, goPath string) *Out {
 	if err != nil {
 		panic(err)
 	}
-	return &Out{ops: bufio.NewWriterSize(fo, 1<<20), gof: bufio.NewWriterSize(fg, 1<<20), stats: map[string]int{}}
+	cur, _ := os.Create(opsPath + ".cur")
+	return &Out{ops: bufio.NewWriterSize(fo, 1<<20), gof: bufio.NewWriterSize(fg, 1<<20), stats: map[string]int{}, cur: cur}
 }
 
 func (o *Out) Emit(op string, goOut string) {
@@ -59,6 +61,11 @@ func (o *Out) Emit(op string, goOut string) {
 
 // Run executes op against the real code and records both lines.
 func (o *Out) Run(op string) {
+	// a panic in a goroutine the engine started itself cannot be recovered: leave the operation where the check finds it
+	if o.cur != nil {
+		o.cur.Truncate(0)
+		o.cur.WriteAt([]byte(op+"\n"), 0)
+	}
 	o.Emit(op, execOp(op))
 	o.stats["op_"+strings.SplitN(op, " ", 2)[0]]++
 }
@@ -67,6 +74,10 @@ func (o *Out) StatN(k string, n int) { o.stats[k] += n }
 func (o *Out) Close(statsPath string) {
 	o.ops.Flush()
 	o.gof.Flush()
+	if o.cur != nil {
+		o.cur.Truncate(0)
+		o.cur.Close()
+	}
 	if statsPath != "" {
 		f, _ := os.Create(statsPath)
 		defer f.Close()
